@@ -247,3 +247,11 @@ pub fn admission_word(cell: &ActorCell) -> usize {
         .message_admission
         .load(std::sync::atomic::Ordering::SeqCst)
 }
+
+/// The real `ActorCell::new_remote` (a cell with a remote id; not in the name or pid registry),
+/// with the port set handed to the caller
+#[cfg(feature = "cluster")]
+pub fn detached_remote_cell<A: Actor>(id: crate::ActorId) -> Result<(ActorCell, DetachedPorts), SpawnErr> {
+    let (cell, ports) = ActorCell::new_remote::<A>(None, id)?;
+    Ok((cell, DetachedPorts(ports)))
+}
